@@ -898,7 +898,20 @@ func sanitize(s string) string {
 	return s
 }
 
+// printable replaces control characters (hardware addresses, identifiers and hostnames are arbitrary bytes) so
+// that the lines a check prints stay text: a NUL in the detail made grep treat the whole output as binary.
+func printable(s string) string {
+	b := []byte(s)
+	for i, c := range b {
+		if (c < 0x20 && c != '\n' && c != '\t') || c == 0x7f {
+			b[i] = '.'
+		}
+	}
+	return string(b)
+}
+
 func firstLines(s string, n int) string {
+	s = printable(s)
 	l := strings.Split(s, "\n")
 	if len(l) > n {
 		l = l[:n]
